@@ -41,7 +41,7 @@ def _percent(self, other):
                 for m, a, sym in zip(specs, args, symbolic):
                     out.append(self[last:m.start()])
                     last = m.end()
-                    if sym and m.group(5) in 'diouxXeEfFgGs':
+                    if sym and m.group(5) in 'diouxXeEfFgGsra':
                         out.append('<sym>')
                     else:
                         out.append(m.group(0))
